@@ -71,6 +71,12 @@ def gen_case(rng, k):
     }
     # predict() accepts the baseline data class as well as the reporting one: both are exercised
     case["data_class"] = "baseline" if rng.random() < 0.4 else "reporting"
+    # storage dtype of the two columns as the caller's frame has them
+    for col, lo, hi in (("temperature", -40, 120), ("observed", -50, 200)):
+        dt = rng.choices(sd.DTYPES, weights=[44, 14, 26, 10, 6])[0]
+        if dt == "int64":      # whole numbers, nothing missing in this column
+            case[col] = [[rng.randrange(lo, hi + 1), 1] for _ in range(m)]
+        case[col + "_dtype"] = dt
     return case
 
 
@@ -90,13 +96,16 @@ def build(case):
     with contextlib.redirect_stdout(io.StringIO()):
         model = sd.build_model(case["model"], subs, case["tz"])
     idx = sd.local_midnights(case["start"], case["n"], case["tz"], case["gaps"])
-    fr = pd.DataFrame({"temperature": [sd.dec(v) for v in case["temperature"]],
-                       "observed": [sd.dec(v) for v in case["observed"]]}, index=idx, dtype=float)
+    bills = case.get("billing_input") == "bills" and case["has_obs_col"] and case["stream"] != "injected"
+    tcol, tdt = sd.typed_column(case["temperature"], case.get("temperature_dtype", "float64"), idx)
+    ocol, odt = sd.typed_column(case["observed"], "float64" if bills else case.get("observed_dtype", "float64"), idx)
+    case["dtypes_used"] = [tdt, odt if case["has_obs_col"] else None]
+    fr = pd.DataFrame({"temperature": tcol, "observed": ocol}, index=idx)
     if not case["has_obs_col"]:
         fr = fr[["temperature"]]
     role = case.get("data_class", "reporting")
     if case["stream"] == "injected":
-        return model, sd.inject(case["model"], sd.layout(fr, case["has_obs_col"]), case["tz"], role), subs
+        return model, sd.inject(case["model"], sd.layout(fr, case["has_obs_col"], keep_dtype=True), case["tz"], role), subs
     cls = sd.data_classes(case["model"], role)
     if case.get("billing_input") == "bills" and case["has_obs_col"]:
         # monthly reads: one value per bill start (irregular 27..34 days), NaN terminated; daily temperature
@@ -128,8 +137,8 @@ def kind_of(x):
 
 def observe_frame(out, daily_index_unit_ok=True):
     ts = sd.index_seconds(out.index)
-    obs = out["observed"].to_numpy(dtype=float) if "observed" in out.columns else np.full(len(out), np.nan)
-    pred = out["predicted"].to_numpy(dtype=float)
+    obs = sd.to_floats(out["observed"]) if "observed" in out.columns else np.full(len(out), np.nan)
+    pred = sd.to_floats(out["predicted"])
     so = float(out["observed"].sum()) if "observed" in out.columns else 0.0
     sp = float(out["predicted"].sum())
     return {"ts": ts, "obs": [sd.enc(v) for v in obs], "pred": [sd.enc(v) for v in pred],
@@ -147,9 +156,9 @@ def run_impl(case):
     smap, dmap = sd.season_maps(model)
     ts = sd.index_seconds(df_in.index)
     segs = [sd.segment_of(subs, smap[m], dmap[d + 1]) for m, d in zip(df_in.index.month, df_in.index.dayofweek)]
-    t_in = df_in["temperature"].to_numpy(dtype=float)
-    o_in = df_in["observed"].to_numpy(dtype=float) if has_obs else np.full(len(df_in), np.nan)
-    obs = {"has_obs": has_obs,
+    t_in = sd.to_floats(df_in["temperature"])
+    o_in = sd.to_floats(df_in["observed"]) if has_obs else np.full(len(df_in), np.nan)
+    obs = {"has_obs": has_obs, "dtypes_in_data_object": [str(df_in["temperature"].dtype), str(df_in["observed"].dtype) if has_obs else None],
            "input": [[t, s, sd.enc(a), sd.enc(b)] for t, s, a, b in zip(ts, segs, t_in, o_in)],
            "unique_sorted_index": bool(df_in.index.is_unique), "frames": {}}
     for agg in (AGGS if case["model"] == "billing" else [None]):
@@ -165,9 +174,14 @@ def run_impl(case):
 PAIRS = [("daily", "reporting"), ("daily", "baseline"), ("billing", "reporting"), ("billing", "baseline")]
 
 
-def detect_policy(kind="daily", role="reporting"):
-    """which masking behaviour does the public predict() of this (model class, data class) pair have? (4 probe days)"""
-    case = {"model": kind, "data_class": role, "stream": "injected", "tz": "UTC", "start": "2021-03-01", "n": 4, "gaps": [],
+PROBE_DTYPES = ["float64", "Float64", "float32"]
+
+
+def detect_policy(kind="daily", role="reporting", tdtype="float64"):
+    """which masking behaviour does the public predict() of this (model class, data class) pair have for a temperature
+    column of this storage dtype? (4 probe days)"""
+    case = {"model": kind, "data_class": role, "temperature_dtype": tdtype, "observed_dtype": "float64",
+            "stream": "injected", "tz": "UTC", "start": "2021-03-01", "n": 4, "gaps": [],
             "has_obs_col": True, "electricity": False, "billing_input": None,
             "submodels": [{"key": "fw-su_sh_wi", "seasons": ["su", "sh", "wi"], "days": "fw", "type": "tidd",
                            "intercept": [7, 1], "hdd_bp": [50, 1], "cdd_bp": [60, 1], "hdd_beta": [0, 1], "cdd_beta": [0, 1],
@@ -307,6 +321,10 @@ def process(run, cases, policy):
         rows = obs["input"]
         n_drop = sum(1 for r in rows if cause_of(r) != "complete row" and not (not obs["has_obs"] and r[2] not in ("nan", "inf", "-inf")))
         nontrivial = 0 < n_drop < len(rows)
+        if "object" in obs.get("dtypes_in_data_object", []):
+            nontrivial = False
+        run.dist("storage dtype of temperature in the data object", obs["dtypes_in_data_object"][0])
+        run.dist("storage dtype of observed in the data object", obs["dtypes_in_data_object"][1])
         run.dist("stream", "%s/%s" % (case["model"], case["stream"]))
         run.dist("(model class, data class) through the public predict()", "%s/%s" % (case["model"], case.get("data_class", "reporting")))
         run.dist("rows", min(400, 10 ** len(str(len(rows)))))
@@ -330,6 +348,11 @@ def process(run, cases, policy):
             fr = obs["frames"][str(agg)]
             run.count((vlib.sha(case), str(agg)), nontrivial)
             if "err" in fr:
+                if fr["err"] == "TypeError" and "object" in obs.get("dtypes_in_data_object", []):
+                    # the data classes accept an object column of Python floats, _initialize_data then dies in np.isfinite:
+                    # predict() returns no frame, so the property (about the returned frame) says nothing
+                    run.dist("outcome", "object-dtype column: predict() raises TypeError, no frame returned (outside C07)")
+                    continue
                 if fr["err"] == "KeyError" and not obs["has_obs"] and agg is not None:
                     run.dist("outcome", "aggregation without observed column raises KeyError (C19's subject)")
                     continue
@@ -367,7 +390,8 @@ def main():
     run.cov["rule"] = (
         "synthetic daily/billing models (1-6 sub-models, tidd / hdd_tidd_cdd, dyadic coefficients) x reporting frames of "
         "1-400 local days in 5 zones, with/without observed column, NaN density 0/.05/.3/1 and +-inf density 0/.04 in "
-        "either column, index gaps; the data object is of the reporting class or of the baseline class (Daily/Billing x Reporting/Baseline"
+        "either column, index gaps; the two columns are stored as float64 / float32 / nullable Float64 (missing = pd.NA) / int64 (whole "
+        "numbers, nothing missing) / object (Python floats, missing = None) in the caller's frame; the data object is of the reporting class or of the baseline class (Daily/Billing x Reporting/Baseline"
         "Data: every type predict() accepts); stream 'class' goes through the class constructor (daily frames "
         "or monthly bills + daily temperature), stream 'injected' places the frame in the data object directly; billing: "
         "aggregation None/monthly/bimonthly. distinct = (case hash, aggregation); non-trivial = frame has both kept and dropped rows")
@@ -379,6 +403,9 @@ def main():
         "goes through the public predict() with an object of one of the data classes it accepts (reporting 60% / baseline 40%)",
         "the masking behaviour the model is run with (mask_policy) is detected from the implementation on a 4-day probe; "
         "the property oracle, not the model, decides violations",
+        "the storage dtype of a column is not an input of the model: a cell is finite, +inf, -inf or missing (NaN, None and pd.NA "
+        "alike); every dtype is run against the same model. An object-dtype column makes predict() raise TypeError in "
+        "_initialize_data (np.isfinite): no frame is returned, the property is silent, those cases count as trivial",
         "correspondence is sampled: agreement is established on the cases run",
     ]
     run.cov["trusted_base"] += ["harness/c07.py, harness/synth_daily.py (generator, adapter, canonicalisation, segment lookup)",
@@ -396,15 +423,19 @@ def main():
     # class is not an input of the model (C07_output_depends_on_frame_only), so every pair must show the same behaviour
     probes = [pcase]
     per_pair = {"daily/reporting": POLICY_NAMES.get(policy, "unrecognised")}
-    for kind, role in PAIRS[1:]:
-        pol2, pc2, po2 = detect_policy(kind, role)
-        per_pair["%s/%s" % (kind, role)] = POLICY_NAMES.get(pol2, "unrecognised")
-        probes.append(pc2)
-        if pol2 != policy:
-            run.log("masking behaviour of %s model on %s data differs: %s" % (kind, role, per_pair["%s/%s" % (kind, role)]))
-            run.corr_failures.append({"stream": "policy-probe", "case": pc2, "impl": po2["frames"],
-                                      "model": "predict() of the %s model masks differently for a %s-class object than the daily "
-                                               "model for a reporting-class one; the model has one behaviour for all" % (kind, role)})
+    for kind, role in PAIRS:
+        for tdt in PROBE_DTYPES:
+            if (kind, role, tdt) == ("daily", "reporting", "float64"):
+                continue
+            pol2, pc2, po2 = detect_policy(kind, role, tdt)
+            name = "%s/%s" % (kind, role) + ("" if tdt == "float64" else " temperature " + tdt)
+            per_pair[name] = POLICY_NAMES.get(pol2, "unrecognised")
+            probes.append(pc2)
+            if pol2 != policy:
+                run.log("masking behaviour of %s differs: %s" % (name, per_pair[name]))
+                run.corr_failures.append({"stream": "policy-probe", "case": pc2, "impl": po2["frames"],
+                                          "model": "predict() masks differently for %s than the daily model for a reporting-class "
+                                                   "object with float64 columns; the model has one behaviour for all" % name})
     run.cov["masking_behaviour_per_pair"] = per_pair
     # which theorem of Properties/C07.v speaks about the behaviour observed: C07_mode_verdict proves
     #   C07_statement_q pol <-> mode_satisfies_statement pol = true ; the boolean is evaluated inside Coq
